@@ -316,6 +316,159 @@ def rule_iter(ctx, rep):
                 raise
 
 
+WRAPPER_RE = r"(__)?cds_(lfs|wfs|wfcq|wfq|lfq)_\w+$"
+
+
+def _twin_signature(f):
+    """multiset of what a flattened function does to memory it did not allocate and which external / indirect calls it makes"""
+    import collections
+    import re
+    sig = collections.Counter()
+    for i in f.all_insts():
+        if i.op == "call" and i.callee:
+            c = i.callee
+            if c.startswith("llvm.") and not c.startswith(("llvm.memset", "llvm.memcpy")):
+                continue
+            if c in ("__assert_fail", "abort", "fprintf", "strerror", "__errno_location"):
+                continue
+            g = f.mod.fn(c)
+            if g is not None and g.blocks:
+                sig[("call-defined", re.sub(r"\.\d+$", "", c))] += 1
+            else:
+                sig[("call", c)] += 1
+        elif i.op == "icall":
+            sig[("icall", re.sub(r"#\d+", "#", ir.expr_str(ir.expr(f, i.d["fp"], 3))))] += 1
+        elif i.op in ("store", "rmw", "cmpxchg", "asm"):
+            e = mm.effect_of(i)
+            if e is None or e.ap is None or not e.writes() or (e.ap.get("base") or ["?"])[0] == "alloca":
+                continue
+            # named by base and byte offset: the two builds reach the same word through differently named (transparent-union) types
+            off = pat.ap_offset(f.mod, e.ap)
+            b = e.ap.get("base") or ["?"]
+            base = "arg%d" % b[1] if b[0] == "a" else ("@" + str(b[1]) if b[0] == "g" else "ptr")
+            where = "%s+%d" % (base, off) if off is not None and b[0] in ("a", "g") else re.sub(r"#\d+", "#", ir.ap_str(f, e.ap)).split(".")[-1]
+            sig[("write", e.kind, getattr(e, "rop", None), where)] += 1
+    return +sig
+
+
+def rule_wrappers(ctx, rep, rid, families):
+    """the exported (non-LGPL) entry points of the queues / stacks against their static-inline twins (witness/wrappers.c, the
+    code _LGPL_SOURCE users get): the flattened library symbol performs the same writes and the same external / indirect calls
+    as the flattened inline version.  However the wrapper is written (forwarding call, one level inlined by hand), an entry
+    point that drops its work leaves every application linked against the library with an operation that does nothing."""
+    import re
+    m = ctx.mod("cds", "flat")
+    w = ctx.mod("w_wrappers", "flat")
+    n = 0
+    for f in m.defined():
+        mt = re.match(WRAPPER_RE, f.name)
+        if not mt or mt.group(2) not in families:
+            continue
+        n += 1
+        rep.touch(f)
+        t = w.fn("w_inl_" + f.name)
+        if t is None:
+            rep.unk(rid, "wrapper." + f.name, "exported entry point %s has no inline twin in witness/wrappers.c: not analysed" % f.name)
+            continue
+        a, b = _twin_signature(f), _twin_signature(t)
+        if a == b:
+            rep.ok(rid, "wrapper." + f.name, "same %d effect(s) as the static-inline implementation" % sum(a.values()), [f.name])
+        else:
+            lost, extra = b - a, a - b
+            rep.bad(rid, "wrapper." + f.name, "the library symbol %s() differs from the static-inline implementation: missing %s%s - applications linked against the library (not built with _LGPL_SOURCE) get a different operation" % (
+                f.name, [" ".join(str(x) for x in k if x) for k in list(lost)[:3]] or "nothing", (", additional %s" % [" ".join(str(x) for x in k if x) for k in list(extra)[:2]]) if extra else ""), [f.name])
+    pat.require(n >= 5, "only %d exported entry points of %s found" % (n, families))
+
+
+INIT_TABLE = {
+    # entry point -> {stored location (suffix): value}; the initial state every other rule assumes
+    "cds_wfcq_node_init": {"cds_wfcq_node.next": "0"},
+    "cds_wfcq_init": {"node.cds_wfcq_node.next": "0", "cds_wfcq_tail.p": "&arg0.cds_wfcq_head.node"},
+    "__cds_wfcq_init": {"node.cds_wfcq_node.next": "0", "cds_wfcq_tail.p": "&arg0.__cds_wfcq_head.node"},
+    "cds_wfq_node_init": {"cds_wfq_node.next": "0"},
+    "cds_wfq_init": {"dummy.cds_wfq_node.next": "0", "cds_wfq_queue.head": "&arg0.cds_wfq_queue.dummy", "cds_wfq_queue.tail": "&arg0.cds_wfq_queue.dummy.cds_wfq_node.next"},
+    "cds_wfs_node_init": {"cds_wfs_node.next": "0"},
+    "cds_wfs_init": {"cds_wfs_stack.head": "1"},
+    "__cds_wfs_init": {"__cds_wfs_stack.head": "1"},
+    "cds_lfs_init": {"cds_lfs_stack.head": "0"},
+    "__cds_lfs_init": {"__cds_lfs_stack.head": "0"},
+    "cds_lfs_init_rcu": {"cds_lfs_stack_rcu.head": "0"},
+    "cds_lfq_node_init_rcu": {"cds_lfq_node_rcu.next": "0", "cds_lfq_node_rcu.dummy": "0"},
+}
+
+
+def rule_inits(ctx, rep, rid, names):
+    """initialisers (static-inline twins in witness/wrappers.c): an empty wfcqueue is head.next = NULL with the tail pointing at
+    the head node, an empty wfstack is head = END, an empty lfstack head = NULL, a fresh node has next = NULL (and, for the
+    RCU queue, dummy = 0 - a node whose dummy flag is left uninitialised is taken for the queue's internal dummy and freed)."""
+    w = ctx.mod("w_wrappers", "flat")
+    for name in names:
+        want = INIT_TABLE[name]
+        g = w.fn("w_inl_" + name)
+        if g is None:
+            raise Broken("witness twin of %s missing" % name)
+        rep.touch(g)
+        got = {}
+        for s_ in g.all_insts():
+            if s_.op == "store" and s_.d["ap"] and s_.d["ap"]["base"][0] == "a":
+                got[ir.ap_str(g, s_.d["ap"])] = ir.expr_str(ir.expr(g, s_.args[0], 3))
+        miss = [k for k, v in want.items() if not any(loc.endswith(k) and val == v for loc, val in got.items())]
+        rep.check(not miss, rid, "init." + name, "%s establishes %s" % (name, want), "%s does not establish %s (stores: %s)" % (name, {k: want[k] for k in miss}, got), [g.name])
+
+
+def rule_wfq_legacy(ctx, rep):
+    """legacy cds_wfq dequeue (___cds_wfq_dequeue_blocking): NULL exactly when only the dummy is queued (head == &dummy and
+    tail == &dummy.next); otherwise the head node's successor is awaited until non-NULL, q->head advances to it, and the old head
+    is returned - unless it is the dummy, which is re-initialised, re-enqueued and the dequeue repeated."""
+    m = ctx.mod("cds", "flat")
+    f = m.fn("___cds_wfq_dequeue_blocking")
+    if f is None:
+        raise Broken("___cds_wfq_dequeue_blocking vanished")
+    rep.touch(f)
+    dummy = lambda e: e[0] == "addr" and e[1] == "arg0.cds_wfq_queue.dummy"
+    dnext = lambda e: e[0] == "addr" and e[1].startswith("arg0.cds_wfq_queue.dummy.")
+    hd = lambda e: e[0] == "load" and e[1] == "arg0.cds_wfq_queue.head"
+    tl = lambda e: e[0] == "load" and e[1] == "arg0.cds_wfq_queue.tail"
+    adv = [s_ for s_ in pat.stores(f, "cds_wfq_queue.head")]
+    nxt = [l for l in f.all_insts() if l.op == "load" and l.d["ap"] and pat.last_field(l.d["ap"]) == "cds_wfq_node.next"]
+    rec = pat.calls(f, "___cds_wfq_dequeue_blocking")
+    xt = [e.inst for e in pat.accesses(f, "cds_wfq_queue.tail", ("xchg",))]
+    pat.require(adv and nxt, "wfq dequeue: head advance / successor load")
+    # empty <=> both tests
+    e_head = [(t.blk.id, s_) for t, s_, a in pat.branch_edges_on(f, lambda a: a[0] == "eq" and hd(a[1]) and dummy(a[2]))]
+    e_tail = [(t.blk.id, s_) for t, s_, a in pat.branch_edges_on(f, lambda a: a[0] == "eq" and tl(a[1]) and dnext(a[2]))]
+    pat.require(e_head and e_tail, "wfq dequeue: emptiness tests")
+    work = adv + rec
+    # a return that did not advance the head took both `empty` edges
+    for edges, what in ((e_head, "head == &dummy"), (e_tail, "tail == &dummy.next")):
+        rep.must_take_edge("C10.wfq", "dequeue.empty-needs-" + what.split(" ")[0], f, [f.entry()], list(f.rets()), edges, include_start=True, avoid=lambda i: i in adv,
+                           what="the dequeue returns without advancing the head only after seeing " + what)
+    # the successor is awaited: the head advances only after a successor load was seen non-NULL
+    nonnull = [(t.blk.id, s_) for t, s_, a in pat.branch_edges_on(f, lambda a: a[0] == "ne" and a[2] == ("c", 0) and a[1][0] == "load" and a[1][1].endswith("cds_wfq_node.next"))]
+    pat.require(nonnull, "wfq dequeue: successor test")
+    rep.must_take_edge("C10.wfq", "dequeue.awaits-successor", f, [f.entry()], adv, nonnull, include_start=True, what="q->head advances only to a successor that was seen non-NULL")
+    v = ir.expr(f, adv[0].args[0], 3)
+    rep.check(v[0] == "load" and v[1].endswith("cds_wfq_node.next"), "C10.wfq", "dequeue.advance-value", "q->head := the awaited successor", "q->head := %s" % ir.expr_str(v), [adv[0].where()])
+    # every return on the non-empty path passed the advance
+    rets = list(f.rets())
+    hit, _ = f.reach([b for b in [f.blocks[s_].insts[0] for _b, s_ in nonnull]], rets, include_start=True, avoid=lambda i: i in adv)
+    rep.check(hit is None, "C10.wfq", "dequeue.always-advances", "a dequeue that found a successor advances q->head before returning", "a node can be returned without q->head moving past it: the next dequeue returns it again", [adv[0].where()])
+    # dummy handling
+    if not rec or not xt:
+        rep.bad("C10.wfq", "dequeue.dummy-requeue", "a dequeued dummy node is not re-enqueued / the dequeue is not repeated: the dummy is handed to the caller, or the queue loses its sentinel", [f.name])
+    else:
+        isd = [(t.blk.id, s_) for t, s_, a in pat.branch_edges_on(f, lambda a: a[0] == "eq" and hd(a[1]) and dummy(a[2])) if t.blk.id != e_head[0][0]]
+        rep.must_pass("C10.wfq", "dequeue.dummy-requeue", f, adv, rec, lambda i: i in xt, what="the dummy is re-enqueued (tail exchange) before the dequeue is repeated")
+        rz = [s_ for s_ in f.all_insts() if s_.op == "store" and s_.d["ap"] and pat.last_field(s_.d["ap"]) == "cds_wfq_node.next" and ir.const_of(f, s_.args[0]) == 0]
+        rep.must_pass("C10.wfq", "dequeue.dummy-reinit", f, adv, xt, lambda i: i in rz, what="the dummy's next is reset to NULL before it is re-enqueued")
+        if isd:
+            rep.must_take_edge("C10.wfq", "dequeue.requeue-only-dummy", f, adv, xt, isd, include_start=False, what="only the dummy node is re-enqueued by the dequeue")
+            notd = [(t.blk.id, s_) for t, s_, a in pat.branch_edges_on(f, lambda a: a[0] == "ne" and hd(a[1]) and dummy(a[2])) if t.blk.id != e_head[0][0]]
+            for b_, s_ in isd:
+                h2, _ = f.reach([f.blocks[s_].insts[0]], rets, include_start=True, avoid=lambda i: i in rec)
+                rep.check(h2 is None, "C10.wfq", "dequeue.dummy-never-returned", "the dummy node is never returned to the caller", "the dummy node can be returned to the caller", [f.blocks[b_].insts[-1].where()])
+
+
 def rule_macro(ctx, rep):
     """the for_each iteration macros (witness/wfiter.c): start at first(), body iff non-NULL, step = next(cursor); _safe variants
     fetch the successor before the body and never touch the cursor afterwards"""
@@ -418,5 +571,8 @@ RULES = [
     ("C10.blocking", rule_blocking),
     ("C10.exported", lambda c, r: rule_exported_locked(c, r, "C10")),
     ("C10.macro", rule_macro),
+    ("C10.exported", lambda c, r: rule_wrappers(c, r, "C10.exported", ("wfcq", "wfq"))),
+    ("C10.init", lambda c, r: rule_inits(c, r, "C10.init", ("cds_wfcq_node_init", "cds_wfcq_init", "__cds_wfcq_init", "cds_wfq_node_init", "cds_wfq_init"))),
+    ("C10.wfq", rule_wfq_legacy),
 ]
 FLOORS = {}
